@@ -16,9 +16,9 @@ static const int D = VDIM, S = VORDER, M = 2 * S, ORD = 2 * S - 1;
 typedef Spl<S, D> Sp;
 typedef Problem<D> Prob;
 
-struct Cfg { unsigned mask = 0; int N = 2; int tm = 0, sm = 0; double rho = 0.25; int K = 3; int fmode = 8; int t0i = 0; int tcmode = 1; int wcmode = 1; bool far = false; bool origin = false;
+struct Cfg { unsigned mask = 0; int N = 2; int tm = 0, sm = 0; double rho = 0.25; int K = 3; int fmode = 8; int t0i = 0; int tcmode = 1; int wcmode = 1; bool far = false; bool origin = false; bool ms1 = false;   // ms1: the first reference duration is exactly the 1 ms acceptance limit
   std::string str() const { static const char *tmn[] = {"QuadInv", "Identity", "AffSq(user)"}, *smn[] = {"IdentitySpatial", "Scale(user)", "Proj(user)", "Tanh(user)"};
-    return fmt("%s D=%d N=%d flags=0x%02x timemap=%s spatialmap=%s rho=%g K=%d running=%s t0#%d timecost#%d%s%s", order_name(S), D, N, mask, tmn[tm], smn[sm], rho, K, RunCost<D>::mode_name(fmode), t0i, tcmode, far ? " far-frame(+3200,-2600,..)" : "", origin ? " waypoints 0,1 at the origin, zero start velocity" : ""); } };
+    return fmt("%s D=%d N=%d flags=0x%02x timemap=%s spatialmap=%s rho=%g K=%d running=%s t0#%d timecost#%d%s%s%s", order_name(S), D, N, mask, tmn[tm], smn[sm], rho, K, RunCost<D>::mode_name(fmode), t0i, tcmode, far ? " far-frame(+3200,-2600,..)" : "", ms1 ? " T_0 = 1 ms" : "", origin ? " waypoints 0,1 at the origin, zero start velocity" : ""); } };
 static const double T0S[3] = {0.375, -2.5, 1024.125};
 
 template <class TM, class SM> struct Harness {
@@ -41,6 +41,7 @@ template <class TM, class SM> struct Harness {
     if (cfg.origin) { prob.P.row(0).setZero(); if (cfg.N >= 2) prob.P.row(1).setZero(); prob.bc.start_velocity.setZero(); }
     // far frame: all waypoints translated by a large dyadic vector (decision variables of magnitude > 1000)
     if (cfg.far) for (int i = 0; i <= cfg.N; ++i) for (int d = 0; d < D; ++d) prob.P(i, d) += (d & 1) ? -2600.0 : 3200.0;
+    if (cfg.ms1) prob.T[0] = 0.001;
     if (cfg.tm == 2) opt.setTimeMap(&utm);
     if (cfg.sm >= 1) opt.setSpatialMap(&usm);
     opt.setOptimizationFlags(flags_of(cfg.mask)); opt.setEnergyWeights(cfg.rho); opt.setIntegralNumSteps(cfg.K);
@@ -203,7 +204,18 @@ template <class TM, class SM> struct Harness {
   }
 
   // ---------------- C19 ----------------
+  // a cost that is a quadratic polynomial of the decision vector (time cost + waypoint cost, identity maps, no running cost, no energy): central
+  // differences are exact up to rounding, so the verdict for correct functors is asserted without any noise model -- in particular at a
+  // reference duration of exactly 1 ms, the acceptance limit (seeded change C19-m10: durations clamped from below inside evaluate())
+  void check_selfcheck_polynomial() {
+    Eigen::VectorXd x = opt.generateInitialGuess(); const int n = (int)x.size(); RunCost<D> zero = RunCost<D>::mode(10);
+    for (int three = 0; three < 2; ++three) for (int builtin = 0; builtin < 2; ++builtin) { WS ws; auto r = three ? opt.checkGradients(x, tc, wc, zero, builtin ? nullptr : &ws) : opt.checkGradients(x, tc, zero, builtin ? nullptr : &ws); ++c.st.comparisons;
+      if (r.analytical.size() != n || r.numerical.size() != n) { fail("selfcheck-polynomial-cost", "wrong vector sizes"); return; }
+      if (!r.valid || !(r.error_norm <= 1e-6 * (1.0 + r.analytical.norm()))) { fail("selfcheck-polynomial-cost", fmt("cost quadratic in x, correct functors, default eps/tol: valid=%d error_norm=%.3g (three-cost=%d, %s workspace); numerical[0]=%.17g analytical[0]=%.17g", (int)r.valid, r.error_norm, three, builtin ? "built-in" : "explicit", r.numerical(0), r.analytical(0))); return; } }
+    c.st.cls("C19: polynomial cost (no noise model needed)");
+  }
   void check_selfcheck() {
+    if (cfg.ms1) { check_selfcheck_polynomial(); return; }
     const int N = cfg.N;
     Eigen::VectorXd x = perturbed_guess(); const int n = (int)x.size();
     WS w0; Eigen::VectorXd g0; const double f0 = eval(x, g0, &w0);
@@ -326,7 +338,8 @@ int main(int argc, char **argv) {
     if (VPROP == 19) {
       for (int N = 1; N <= 3; ++N) for (unsigned m = 0; m < 256; ++m) { if (!th && !(m == 0 || m == 255 || m == 0x11 || m == 0x22 || m == 0x44 || m == 0x88 || m == 0x5a || m == 0xa5 || m == 0x0f || m == 0xf0 || m == 0x33 || m == 0xcc || m == 0x01 || m == 0x10 || m == 0x81 || m == 0x7e)) continue;
         for (int sm : {0, 2}) { Cfg g; g.mask = m; g.N = N; g.sm = sm; g.K = 2; g.fmode = 8; g.rho = (m & 1) ? 0.0009765625 : 0.0; if (sm == 2 && !(th || m == 255 || m == 0x11)) continue; unit_do(g); }
-        if (m == 255 || m == 0x11 || m == 0) { Cfg g; g.mask = m; g.N = N; g.sm = 0; g.K = 2; g.fmode = 1; g.rho = 0.0; g.far = true; unit_do(g); } }
+        if (m == 255 || m == 0x11 || m == 0) { Cfg g; g.mask = m; g.N = N; g.sm = 0; g.K = 2; g.fmode = 1; g.rho = 0.0; g.far = true; unit_do(g); }
+        if (m == 255 || m == 0x11 || m == 0) for (int ms = 0; ms < 2; ++ms) { Cfg g; g.mask = m; g.N = N; g.sm = 0; g.tm = 1; g.K = 1; g.fmode = 10; g.rho = 0.0; g.ms1 = true; g.tcmode = ms ? 1 : 0; unit_do(g); } }
       return;
     }
     // C07 / C08: (a) all 256 masks x N 1..3 with defaults (DIM <= 2 in quick)
